@@ -191,6 +191,10 @@ class AddedDiagLinearOperator(SumLinearOperator):
         if isinstance(self._diag_tensor, ConstantDiagLinearOperator):
             U, S_, V = self._linear_op.svd()
             S = S_ + self._diag_tensor._diagonal()
+            if U.shape[:-2] != S.shape[:-1]:
+                # the diagonal may have a larger batch shape than the operator it is added to
+                U = U.expand(*S.shape[:-1], *U.shape[-2:])
+                V = V.expand(*S.shape[:-1], *V.shape[-2:])
             return U, S, V
         return super()._svd()
 
